@@ -3,4 +3,11 @@ EXTENDS HttpConn
 Both == {TRUE, FALSE}
 I2 == {"i1", "i2"}
 I3 == {"i1", "i2", "i3"}
+\* per-instance clients
+Own2 == [i \in I2 |-> i]
+Own3 == [i \in I3 |-> i]
+\* shared-client, client-number 2, three instances, round-robin (core/clientpool Next: the first gets client 1)
+Shared3k2 == [i \in I3 |-> CASE i = "i1" -> "c1" [] i = "i2" -> "c0" [] OTHER -> "c1"]
+\* shared-client, client-number 1
+Shared3k1 == [i \in I3 |-> "c0"]
 =============================================================================
